@@ -32,7 +32,8 @@ def fsame(a, b, tol):
     if math.isnan(a) or math.isnan(b):
         return math.isnan(a) and math.isnan(b)
     if a == b:
-        return True
+        # an exact comparison tells the two zeros apart (they are written "0.0" / "-0.0" and are different IEEE values)
+        return tol > 0.0 or a != 0.0 or math.copysign(1.0, a) == math.copysign(1.0, b)
     if math.isinf(a) or math.isinf(b):
         return False
     return abs(a - b) <= tol
